@@ -227,7 +227,7 @@ def check_message(run, m, ec, v, lvl, route, data, find_groups=True):
         m2 = parse_message(er7, validation_level=lvl, find_groups=find_groups)
         got2, er72 = m2.encoding_chars, m2.to_er7()
     except Exception as ex:  # noqa
-        run.fail('reparse-raises', 'parse_message(to_er7()) raised', exc=repr(ex), **base)
+        run.fail('reparse-raises', 'parse_message(to_er7()) raised', exc=repr(ex), reparse_exception=type(ex).__name__, **base)
         return er7
     if got2 != exp:
         run.fail('reparse-set-differs', 'parse_message(to_er7()) does not recover the same set', got=got2, expected=exp, **base)
@@ -517,6 +517,20 @@ def main(argv=None):
             if t is not None and v < '2.7':
                 # five characters in MSH-2 below 2.7: the code rejects the text; only the model comparison looks at it
                 header_texts.append(build_text(v, ec, content[:1], True))
+        # ---- sets in which '.' has a role (oracle only: the model's domain excludes them because the version
+        # string written in MSH-12 contains '.'; the property quantifies over ALL punctuation characters)
+        for role in range(5):
+            ecl = [x for x in ('|', '^', '~', '\\', '&')]
+            ecl[role] = '.'
+            ecd = tuple(ecl) + (None,)
+            stats['dot_sets'] = stats.get('dot_sets', 0) + 1
+            try:
+                m, assigned = build_api(v, ecd, TOLERANT, tolerant_content(rng, ecd))
+            except Exception as ex:  # noqa
+                run.fail('construction-raises', 'building a message with a valid set raised', version=v, ec=ecd, level=TOLERANT,
+                         exc=repr(ex), dot_role=role)
+                continue
+            check_message(run, m, ecd, v, TOLERANT, 'api', {'assigned': assigned, 'dot_role': role})
         # ---- defaults: Message(name, version=v) without a set
         try:
             m, assigned = build_api(v, DEFAULT5, TOLERANT, tolerant_content(rng, DEFAULT5), use_default=True)
